@@ -82,6 +82,19 @@ func c10(c *core.Ctx) {
 	c.Rule("C10.compare", "the remembered sequence number is compared with the next received number, with an error on the failing edge, before a message is delivered", 0)
 
 	c10DupFilter(c, seqNum)
+	c.Rule("C10.release", "the chunks buffered for a request are dropped when its final chunk has been merged (C12.release applies verbatim): a replayed final chunk then stands alone and fails to decode instead of re-delivering the whole message", 1)
+	{
+		tmp := core.NewCtx(c.Prop, c.Tier, c.P)
+		c12(tmp)
+		for _, e := range tmp.Errors {
+			c.Fatal("%s", e)
+		}
+		for _, o := range tmp.Obs {
+			if o.Rule == "C12.release" {
+				c.Ob("C10.release", o.Key, o.Pos, o.OK, o.Detail)
+			}
+		}
+	}
 
 	fns := reachableFrom(c, []*ssa.Function{recv}, "uasc")
 	c.Count("functions reachable from Receive (uasc)", len(fns))
@@ -219,6 +232,27 @@ func c12(c *core.Ctx) {
 				c.Ob("C12.key", fname(f)+"·"+s.Kind.String()+"(SecureChannel.chunks)", pos(c, s.Instr), ok, d)
 			}
 		}
+	}
+	// no operation on the whole table on the receive path: partial messages of other requests must survive
+	{
+		bad := ""
+		for f := range reachableFrom(c, []*ssa.Function{recv}, "uasc") {
+			for _, b := range f.Blocks {
+				for _, in := range b.Instrs {
+					switch x := in.(type) {
+					case ssa.CallInstruction:
+						if ssax.IsBuiltin(x, "clear") && len(x.Common().Args) == 1 && loadedField(x.Common().Args[0]).f == chunks {
+							bad = "clear(SecureChannel.chunks) at " + pos(c, in)
+						}
+					case *ssa.Store:
+						if fa, ok := x.Addr.(*ssa.FieldAddr); ok && fieldOf(fa) == chunks {
+							bad = "SecureChannel.chunks replaced at " + pos(c, in)
+						}
+					}
+				}
+			}
+		}
+		c.Ob("C12.key", fname(recv)+"·no whole-table reset of SecureChannel.chunks", c.P.Pos(recv.Pos()), bad == "", "the receive path only touches the entry of the request id at hand: "+orNone(bad)+" (an abort of one request must not discard the buffered chunks of another)")
 	}
 	// release
 	{
